@@ -119,3 +119,80 @@ prop("C04",
      "Bounded writers/readers/ops; mutex and yield modelled.",
      "stateless model checking of the implementation: preemption-bounded DFS over a controlled scheduler",
      "DESIGN.md 4/C04")
+
+
+prop("C05",
+     [dict(name="C05", src="rcu.cpp", cxxflags=["-DMODE_C05"], deadline=dict(quick=100, thorough=1200))],
+     SCHED_RULE + " Programs: list prefilled with 2-3 elements; 1-2 traversers (read or write handle) pausing on "
+     "each element, an eraser (1st / 2nd / last / all elements, double erase, erase+push), 0-2 short-lived handles "
+     "whose release triggers reclamation, second erasers/pushers; weak-CAS failures and stale reads of the relaxed "
+     "log-head load are deviations of the same budget.",
+     "Real rcu_guarded<rcu_list<Val>>. Oracles: quarantine arena (never reuses freed memory within an execution; "
+     "any instrumented plain or atomic access to a freed node or log record is reported), element check word, the "
+     "statement taken literally (no erased node is freed while a handle whose first access returned before that "
+     "erase was invoked is alive - evaluated from totally ordered stamps), final contents vs sequential reference, "
+     "all memory freed after list destruction, race detector.",
+     A_COMMON + [A_MM],
+     "Exhaustive exploration of all interleavings (deviation-bounded, iterated) of registration CAS, unlink stores, "
+     "log push, owner scans and frees for every small traverser/eraser/reaper program over the real rcu_list.",
+     "Bounded threads/ops; quarantine covers instrumented accesses only (A2).",
+     "stateless model checking of the implementation: deviation-bounded DFS over a controlled scheduler",
+     "DESIGN.md 4/C05")
+
+
+prop("C12",
+     [dict(name="C12", src="rcu.cpp", cxxflags=["-DMODE_C12"], deadline=dict(quick=100, thorough=1200))],
+     "Sequential part: every operation sequence up to depth 5 (6 thorough) over {push_front, push_back, "
+     "emplace_front, emplace_back, begin, ++it, erase(it), erase(same it again), traverse} with fresh values on a "
+     "real list, compared step by step (iterator position, iterator returned by erase, traversal contents) with a "
+     "reference std::vector. Concurrent part: " + SCHED_RULE + " Programs: 1-2 traversers (read/write handle) "
+     "against 1-2 mutator threads (push/emplace front/back, erase 1st/2nd/last/all, double erase).",
+     "Real rcu_list under the controlled scheduler. Oracles: traversals return only inserted values, in strictly "
+     "increasing position rank (list order, no duplicates), including every value that was in the list for the "
+     "whole traversal (stamps: inserted-returned-before / erase-invoked-after); final contents equal the "
+     "sequential execution of the mutations in writer-lock acquisition order (acquisition sequence numbers from "
+     "the lock model; two mutations with the same number = writers not serialised); race detector for publication "
+     "(node fully constructed/linked before reachable); arena.",
+     A_COMMON + [A_MM],
+     "Exhaustive enumeration of operation sequences (bounded depth) against a reference list plus exhaustive "
+     "deviation-bounded exploration of traverser/mutator interleavings over the real rcu_list.",
+     "Bounded depth / threads / ops.",
+     "explicit enumeration of operation sequences + stateless model checking (deviation-bounded DFS) of the implementation",
+     "DESIGN.md 4/C12")
+
+prop("C13",
+     [dict(name="C13", src="rcu.cpp", cxxflags=["-DMODE_C13"], deadline=dict(quick=100, thorough=1200))],
+     "Sequential part: every well-formed history up to depth 6 (7 thorough) over {lock_read, lock_write, first "
+     "access (begin), release, push_front, push_back, ++it, erase(it)} on an empty and on a 2-element list, ending "
+     "with release and list destruction. Concurrent part: " + SCHED_RULE + " Programs: pausing traversers, erasers, "
+     "pushers and 1-3 short-lived handles (reclamation by concurrent releases).",
+     "Real rcu_list<Tracked, std::mutex, CountingAlloc<Tracked>>: element type with non-trivial destructor, "
+     "self-pointer canary and instance counter; allocator that records allocate/deallocate/construct/destroy per "
+     "pointer. Oracles at every event: destroy/deallocate only of a currently constructed/allocated pointer (null, "
+     "never-constructed, double = violation); at the end every allocation released once, every object destroyed "
+     "once, instance count 0, arena empty.",
+     A_COMMON + [A_MM],
+     "Exhaustive enumeration of handle/mutation histories (bounded depth) plus exhaustive deviation-bounded "
+     "exploration of concurrent reclamation over the real rcu_list with an accounting allocator and element type.",
+     "Bounded depth / threads / ops.",
+     "explicit enumeration of operation sequences + stateless model checking (deviation-bounded DFS) of the implementation",
+     "DESIGN.md 4/C13")
+
+prop("C14",
+     [dict(name="C14_lr", src="C03.cpp", cxxflags=["-DMODE_C14"], deadline=dict(quick=60, thorough=600)),
+      dict(name="C14_cow", src="C04.cpp", cxxflags=["-DMODE_C14"], deadline=dict(quick=60, thorough=600)),
+      dict(name="C14_rcu", src="rcu.cpp", cxxflags=["-DMODE_C14"], deadline=dict(quick=100, thorough=1200))],
+     SCHED_RULE + " Programs: the C03 (lr_guarded), C04 (cow_guarded) and C05 (rcu) program sets; every read "
+     "acquisition is bracketed as a read-side section.",
+     "Oracles: (1) no blocking-capable operation (mutex / rwlock acquisition, condition wait, yield, sleep) is "
+     "executed inside a read-side section, whether or not it would have blocked in this schedule; (2) solo "
+     "completion: a read-side section finishes within a small fixed number of the reader's own visible steps in "
+     "every schedule, including all those where the writers are suspended after each visible step of modify / "
+     "commit / push / erase (the DFS contains 'preempt writer at step i, run reader' for every i at P>=1); (3) "
+     "writers complete once readers release: deadlock / livelock detector on every execution.",
+     A_COMMON + [A_MM],
+     "Exhaustive deviation-bounded exploration with read-side section instrumentation over the real lr_guarded, "
+     "cow_guarded and rcu_guarded/rcu_list.",
+     "Bounded threads/ops; allocation inside rcu registration is not counted as blocking.",
+     "stateless model checking of the implementation: deviation-bounded DFS over a controlled scheduler",
+     "DESIGN.md 4/C14")
